@@ -300,7 +300,7 @@ func TestC05_MgrxRestart(t *testing.T) {
 		st, _ := r.flush(c.chid)
 		terminated := isTerminal(st.Status())
 		if !terminated && rapid.IntRange(0, 4).Draw(t, "terminate") == 0 {
-			_ = r.mgr.CloseDataTransferChannel(bg(), c.chid)
+			_ = r.closeCh(c.chid)
 			r.settle(c.chid)
 			r.syncAll()
 			terminated = true
